@@ -2789,8 +2789,8 @@ def sensor_acc(m: Model, d: Data):
   )
 
   # apply sensor delay/interval for acceleration sensors
+  # sensor_acc_adr lists every acceleration-stage sensor, the limit-force ones included
   history.apply_sensor_delay(m, d, m.sensor_acc_adr)
-  history.apply_sensor_delay(m, d, m.sensor_limitfrc_adr)
 
   if m.callback.sensor:
     m.callback.sensor(m, d, Stage.ACC)
